@@ -271,3 +271,23 @@ reg("C17", harness="c17_window", level="exploration", deadline=(300, 1800), extr
           "thorough": [dict(flavour="sim", part="window"), dict(flavour="sim", part="dict"), dict(flavour="h8k", part="window"), dict(flavour="lht", part="window")]},
     rule="case = (input, hist_bits, level, flush, wrapper, api, cpu) / (dictionary length, data shape, level, cpu, API); distinct_nontrivial = "
          "distinct verified streams / dictionary cases.")
+
+
+ENGINES.append({"name": "sched", "path": "engine/vsched.h", "serves_properties": ["C15"],
+                "kind_free_text": "hook-free serialising scheduler: library-owned writable memory is PROT_NONE, every access faults, W-granule accesses are scheduling points, the instruction is single-stepped (TF); stateless DFS over schedules with iterative preemption bounding"})
+
+reg("C15", harness="c15_reentrant", level="model_checking", deadline=(480, 2400), extra_src=["ref/ref_inflate.c"], engine="sched",
+    technique="stateless model checking of thread interleavings under a controlled scheduler over page-fault-intercepted accesses to library-owned memory (all interleavings for single-slot cold starts, preemption-bounded for multi-slot), plus write-monitor, pre-fill and reuse-history enumeration",
+    level_text="(b) For each of the 26 public dispatched entry points, 2 and 3 threads make their first call concurrently and ALL interleavings of "
+               "their accesses to library-owned writable memory are executed on the real code (1680 schedules for 3 threads) under real CPUID and "
+               "simulated CPU levels; codec/EC calls that resolve several slots are explored with preemption bound 2 (3); every thread must return "
+               "the serial value, the final slots must equal the serial selection, nothing but dispatch slots may be written. (a) after warm-up the "
+               "library's writable segment is made read-only and the whole battery + extra workload runs at 7 CPU levels. (c) contexts, level "
+               "buffers, outputs and decoder states pre-filled with 5 patterns give identical results. (d) every operation history of depth <= 2 "
+               "(3) over 21 operations followed by reset or init behaves like a fresh context.",
+    level_note="interleavings are sequentially consistent at instruction granularity (TSO covered by the Promela slot model, models/slot_tso.pml); "
+               "preemption bound <= 2/3 for multi-slot cold starts; the scheduler self-test (racy toy found, atomic toy silent) runs first.",
+    runs=[dict(flavour="sim", part="sched"), dict(flavour="sim", part="tso", shards=1), dict(flavour="sim", part="writemon"), dict(flavour="sim", part="prefill"), dict(flavour="sim", part="reuse")],
+    rule="state = scheduling point (a thread about to access a written granule), transition = one thread step on the real code, "
+         "traces_validated_against_impl = complete schedules executed; plus (case x pre-fill pattern) and (history) enumerations; "
+         "distinct_nontrivial = explorations, monitored levels and distinct compared outputs.")
